@@ -22,6 +22,15 @@ documented form - an iterable (list, tuple, generator) of (name, value) two-tupl
 bytes, one tuple per value, names in any case, with extra hostile pairs of the
 request class's own - as request classes written against the pre-Headers API hand it
 over; an invalid name among the pairs must be refused before anything is sent.
+In a share of the responses the application goes on using the request object after the head has
+gone out - between two writes or before finish it changes the status (an error handler after a 204/304
+head; a late 304 after a 200 head), calls setETag / setLastModified on a conditional request (which
+change the status silently), sets a header or adds a cookie: the response stays the one announced in the
+head (its status decides about the body, its framing holds for every write).  Some requests are
+conditional (If-None-Match / If-Modified-Since) and the application answers them with setETag /
+setLastModified before writing: the helper's field is part of the headers set and, when it returns CACHED,
+the status is the one it set (304, or 412).  A Set-Cookie field may be set through the header API, alone
+or (knob MIX_COOKIE_APIS_P) beside addCookie calls.
 Mis-framing of one response desynchronises the following ones.  In
 a share of the runs the transport reports the end of the connection synchronously
 from inside loseConnection() (as in-memory transports do).
@@ -39,6 +48,7 @@ token) must be answered; whether the server answers later ones is persistence,
 not framing, and gets no verdict.
 """
 import re
+from email.utils import formatdate
 
 from detsim import net
 from detsim.sim import Violation, StepLimit
@@ -54,7 +64,7 @@ TWIN_P = 0.08   # this share of the runs drives two independent instances of the
 BATCH = 50
 RUN_WALL_LIMIT_S = 90   # a run takes milliseconds; the wall-clock watchdog only has to survive machine stalls under heavy shared load
 COMPONENTS = {
-    "real": ["twisted.web.http.Request.setResponseCode/setHeader/addCookie/write/finish/registerProducer", "twisted.web.http.HTTPChannel.writeHeaders (Headers form and two-tuple form)/"
+    "real": ["twisted.web.http.Request.setResponseCode/setHeader/addCookie/setETag/setLastModified/write/finish/registerProducer", "twisted.web.http.HTTPChannel.writeHeaders (Headers form and two-tuple form)/"
              "write/writeSequence/pauseProducing/resumeProducing", "twisted.web.http_headers.Headers/_NameEncoder/_sanitizeLinearWhitespace",
              "twisted.web.http.toChunk"],
     "stub": ["TCP transport with a small send buffer (detsim.net.SimTransport, hwm)", "the client (scripted pipelined requests, reads at tape-chosen times)",
@@ -69,7 +79,10 @@ RULE = ("run = 1-4 pipelined requests (the last: HTTP/1.0 or Connection: close i
         "bytes or text), with p=0.15 the header block handed to writeHeaders as list/tuple/generator of two-tuples (one per value, names re-cased, 0-2 "
         "extra pairs with hostile names and values, 40% on a field used before; a block with an invalid name must be refused whole and is handed over "
         "again without it), 0-6 writes (direct or via "
-        "a push producer) interleaved with request deliveries, client reads and clock advances; 15% of the runs use a transport that reports the "
+        "a push producer) interleaved with request deliveries, client reads and clock advances; with p=0.2 (LATE_P) 1-2 calls on the request after the head has "
+        "gone out (setResponseCode across and along the 204/304 boundary, setETag/setLastModified on a conditional request, setHeader, addCookie) placed "
+        "after a tape-chosen write; 12% of the requests conditional, half of those (4% of the others) answered with setETag/setLastModified before the first write; "
+        "8% of the responses set a Set-Cookie field through setHeader/addRawHeader (a quarter of those that also call addCookie keep it: MIX_COOKIE_APIS_P); 15% of the runs use a transport that reports the "
         "loss from inside loseConnection(); 7 runs out of 8 never put CR/LF into a reason phrase; "
         "non-trivial = at least one response was completed and at least one hostile byte (CR, LF, NUL, ';', non-ASCII) was used in a header, cookie "
         "or reason")
@@ -84,6 +97,14 @@ ASSUMPTIONS = ["status codes are three-digit final codes (200-599); reason phras
                "HTTPChannel.writeHeaders is part of the emitting path named by the property, and its docstring documents two forms of the header argument; the "
                "two-tuple form (bytes names and values, the documented type) is held to the same clauses: exactly the pairs given - one line per pair, the order "
                "of a field's values kept - line breaks replaced, an invalid name refused with nothing sent.  The order of DIFFERENT fields is not judged",
+               "the status of a response is the one in force when its head goes out (the first write, or finish); a call made on the request after that "
+               "(setResponseCode, setETag, setLastModified, setHeader, addCookie) cannot be in the head and gets no verdict of its own - but the bytes must still "
+               "be exactly one response: no body after a 204/304 head whatever the status is changed to, every write in the body of a head that announced one",
+               "setETag / setLastModified are ways of setting a header (ETag: the tag, replacing earlier values; Last-Modified: the HTTP-date of the time given) "
+               "and, as documented, of setting the status: when the call returns http.CACHED the status is 304 (412 from setETag unless GET/HEAD) and the reason "
+               "phrase given earlier is not judged.  Whether the condition was evaluated correctly is not judged (the return value is taken as given)",
+               "a Set-Cookie field set through setHeader/addRawHeader is a header set like any other; when addCookie is used for the same response too, all "
+               "values of both are expected, in any order ('set' is only used before the first addCookie, so that nothing can be said to have been replaced)",
                "text that no encoding can carry (lone surrogates) is expected to be refused; should a set call accept it, that field gets no verdict",
                "a Connection: close / keep-alive header added to the response by the server is not a header 'set' by the application and is allowed",
                "how many requests are served after one that allows the server to close is not judged (persistence, not framing)"]
@@ -147,6 +168,23 @@ UNENCODABLE = ["\udce9", "\ud800", "a\udfffb", "caf\udce9"]
 # request-side Connection header values: the close / keep-alive options in any case, alone and in comma lists
 CONN_VALUES = [b"keep-alive", b"close", b"Keep-Alive", b"CLOSE", b"KEEP-ALIVE", b"Close", b"keep-alive, close", b"close, TE", b"TE, keep-alive"]
 
+
+# the application goes on using the request object AFTER the head of the response has gone out (between two writes, or between the
+# last write and finish): it changes the status (an error handler that runs after a 304/204 head, a handler that decides late that
+# nothing changed), calls the conditional-request helpers (which change the status silently), sets a header or a cookie.  The head is
+# on the wire: the response is the one announced there - its status decides whether there is a body, its framing holds for every write.
+LATE_P = 0.2
+LATE_KINDS = ["code", "code", "code", "etag", "lastmod", "header", "cookie"]
+LATE_CODES = [500, 304, 204, 200, 404, 304, 205]
+ETAGS = [b'"v1"', b'"v2"', b'W/"v1"']
+IF_NONE_MATCH = [b'"v1"', b"*", b'"v2"', b'"v2", "v1"']
+LASTMOD_OFFSETS = [0, -500, 500, 2000]      # seconds relative to H.EPOCH
+IF_MODIFIED_SINCE_OFFSETS = [0, 1000, -1000]
+# a Set-Cookie field set through the header API (setHeader / addRawHeader) is a header like any other; in this share of the responses
+# that do so AND call addCookie, both APIs are used for the one response (knob: the tree as first examined had a genuine defect there,
+# REPAIRED in /repo 6461a49, see MUTANTS; the precondition is let into this share, 0 is only for dev-time comparison)
+DIRECT_SET_COOKIE_P = 0.08
+MIX_COOKIE_APIS_P = 0.25
 
 # ways of mentioning Content-Length without declaring one
 CL_VOID_KINDS = ["empty-list", "refused-add", "set-then-empty", "refused-set", "set-then-remove", "refused-list"]
@@ -273,6 +311,46 @@ def gen_plan(sim, idx, avoid_reason_breaks):
                 elif k == 2:
                     n += sim.draw_choice([b":", b" ", b"\r\n", b"\n", b": x\r\nY"], "ntail")
             p.late_pairs.append((n, _b(gen_hostile_value(sim))))
+    # a Set-Cookie field set through the header API, alone or (knob) beside addCookie calls
+    p.direct_cookie = None
+    if sim.draw_bool(DIRECT_SET_COOKIE_P, "direct-set-cookie") and (not p.cookies or sim.draw_bool(MIX_COOKIE_APIS_P, "mix-cookie-apis")):
+        when = sim.draw_choice(["before", "after"], "direct-cookie-when")
+        op = "add" if when == "after" else sim.draw_choice(["set", "add"], "direct-cookie-op")
+        p.direct_cookie = (when, op, sim.draw_choice([b"Set-Cookie", "set-cookie", b"SET-COOKIE", "Set-Cookie"], "direct-cookie-name"),
+                           sim.draw_choice([b"direct=1", b"d=1; Path=/", "t=\u00e9"], "direct-cookie-plain") if sim.draw_bool(0.5, "direct-cookie-simple")
+                           else gen_hostile_value(sim))
+    # conditional request (If-None-Match / If-Modified-Since) and the helpers that answer it: setETag / setLastModified set a header
+    # and, when the condition holds, change the status themselves (they say so by returning http.CACHED)
+    p.cond = None
+    p.early_cond = None
+    if sim.draw_bool(0.12, "conditional"):
+        p.cond = ("inm", sim.draw_choice(IF_NONE_MATCH, "inm")) if sim.draw_bool(0.5, "cond-kind") else \
+            ("ims", sim.draw_choice(IF_MODIFIED_SINCE_OFFSETS, "ims"))
+    if sim.draw_bool(0.5 if p.cond else 0.04, "early-helper"):
+        kind = {"inm": "etag", "ims": "lastmod"}[p.cond[0]] if p.cond and sim.draw_bool(0.8, "helper-fits") else sim.draw_choice(["etag", "lastmod"], "helper")
+        p.early_cond = (kind, sim.draw_choice(ETAGS, "etag") if kind == "etag" else sim.draw_choice(LASTMOD_OFFSETS, "lastmod"))
+    # calls made after the head has gone out: (number of writes made before it >= 1, kind, argument)
+    p.late_ops = []
+    if p.writes and sim.draw_bool(LATE_P, "late-ops"):
+        for _ in range(sim.draw_int(1, 2, "nlate-ops")):
+            kind = sim.draw_choice(LATE_KINDS, "late-kind")
+            at = sim.draw_int(1, len(p.writes), "late-at")
+            if kind == "code":
+                arg = (sim.draw_choice(LATE_CODES, "late-code"), sim.draw_bytes(sim.draw_int(1, 6, "late-rlen"), b"OK Err") if sim.draw_bool(0.3, "late-reason") else None)
+            elif kind == "etag":
+                arg = sim.draw_choice(ETAGS, "etag")
+                if p.cond is None:
+                    p.cond = ("inm", sim.draw_choice(IF_NONE_MATCH, "inm"))
+            elif kind == "lastmod":
+                arg = sim.draw_choice(LASTMOD_OFFSETS, "lastmod")
+                if p.cond is None:
+                    p.cond = ("ims", sim.draw_choice(IF_MODIFIED_SINCE_OFFSETS, "ims"))
+            elif kind == "header":
+                arg = (sim.draw_choice(GOOD_NAMES, "gname"), sim.draw_bytes(sim.draw_int(0, 6, "vlen"), b"ab1 -_."))
+            else:
+                arg = (sim.draw_bytes(sim.draw_int(1, 4, "vlen"), b"abk"), sim.draw_bytes(sim.draw_int(0, 4, "vlen"), b"ab1"))
+            p.late_ops.append((at, kind, arg))
+        p.late_ops.sort(key=lambda t: t[0])
     return p
 
 
@@ -358,8 +436,8 @@ def run(sim):
     except AttributeError:
         pass
     nreq = sim.draw_int(1, 4, "nreq")
-    # CR/LF in a reason phrase (the precondition of the known reason-line-break defect) only in 1 run out of 8, so that the
-    # other clauses are exercised on full-length runs whether or not that defect is present
+    # CR/LF in a reason phrase (the precondition of the reason-line-break defect of the tree as first examined, REPAIRED in /repo
+    # 8367642) is allowed in 3 runs out of 4; the remaining quarter keeps it out (dev-time comparison with a tree without the repair)
     avoid_reason_breaks = not sim.draw_choice([False, True, True, True], "reason-breaks-allowed")
     hwm = sim.draw_choice([None, 40, 8, 200], "hwm")
     sync_loss = sim.draw_bool(0.15, "sync-loss")    # the transport reports the loss from inside loseConnection() (as in-memory transports do)
@@ -384,6 +462,10 @@ def run(sim):
         w = method + b" /r%d " % i + version + b"\r\nHost: h.test\r\n"
         if conn is not None:
             w += sim.draw_choice([b"Connection", b"connection", b"CONNECTION"], "conn-name") + b": " + conn + b"\r\n"
+        cond = plans[i].cond
+        if cond is not None:
+            # a conditional request: the validators the application's helpers (setETag / setLastModified) are compared with
+            w += (b"If-None-Match: " + cond[1] if cond[0] == "inm" else b"If-Modified-Since: " + formatdate(H.EPOCH + cond[1], usegmt=True).encode("ascii")) + b"\r\n"
         if method == b"POST":
             w += b"Content-Length: 3\r\n\r\nabc"
         else:
@@ -418,8 +500,37 @@ def run(sim):
             req.finish()
         plan.finished = True
 
+    def late_call(plan, req, kind, arg):
+        """a call the application makes after the head of this response has gone out.  Nothing of it can be in the head any more, and it
+        must not change what the rest of the response looks like: plan.expected / plan.head_code are left alone."""
+        sim.event("late", plan.idx, kind, repr(arg))
+        sim.fault("request_used_after_head_was_sent")
+        before = req.code
+        try:
+            if kind == "code":
+                req.setResponseCode(*arg)
+            elif kind == "etag":
+                req.setETag(arg)
+            elif kind == "lastmod":
+                req.setLastModified(H.EPOCH + arg)
+            elif kind == "header":
+                req.setHeader(*arg)
+            else:
+                req.addCookie(*arg)
+        except Exception:
+            pass      # whether such a call is accepted is not judged
+        if kind in ("etag", "lastmod") and req.code != before:
+            sim.probe("conditional_helper_changed_status_after_head")
+        if (req.code in http1.NO_BODY_STATUS) != (plan.head_code in http1.NO_BODY_STATUS) and plan.req_method != b"HEAD":
+            sim.probe("status_after_head_on_other_side_of_no_body_boundary")
+
     def app_step():
         plan, req, rest, prod = active[0]
+        done = len(plan.writes) - len(rest)
+        if plan.late_pending and plan.late_pending[0][0] <= done:
+            _at, kind, arg = plan.late_pending.pop(0)
+            late_call(plan, req, kind, arg)
+            return
         if rest:
             data = rest.pop(0)
             sim.event("write", plan.idx, data)
@@ -435,6 +546,9 @@ def run(sim):
         plan.unknown = set()        # lower names on which there is no verdict (a value outside every encoding was accepted)
         plan.reason_refused = False
         plan.req_method = req.method
+        plan.head_code = plan.code      # the status in force when the head goes out
+        plan.late_pending = list(plan.late_ops)
+        plan.cookie_apis_mixed = False
         try:
             req.setResponseCode(plan.code, plan.reason)
         except Exception:
@@ -506,6 +620,21 @@ def run(sim):
                     plan.expected.setdefault(key, []).extend(nvs)
                 else:
                     plan.expected[key] = nvs
+        def direct_cookie():
+            _when, op, name, value = plan.direct_cookie
+            if op == "set":
+                req.setHeader(name, value)
+                plan.expected[b"set-cookie"] = [http1.norm_value(_b(value))]
+            else:
+                req.responseHeaders.addRawHeader(name, value)
+                plan.expected.setdefault(b"set-cookie", []).append(http1.norm_value(_b(value)))
+            note_hostile(_b(value))
+            sim.event("direct-set-cookie", idx, op)
+            sim.fault("set_cookie_field_set_through_header_api")
+
+        if plan.direct_cookie is not None and plan.direct_cookie[0] == "before":
+            direct_cookie()     # "set" only here: nothing of addCookie's can be replaced by it yet
+        accepted_cookies = 0
         for c in plan.cookies:
             kw = dict(expires=c.get("expires"), domain=c.get("domain"), path=c.get("path"), max_age=c.get("max_age"),
                       comment=c.get("comment"), secure=c["secure"], httpOnly=c["httpOnly"], sameSite=c["sameSite"])
@@ -520,9 +649,17 @@ def run(sim):
             with sim.guard("cookie-raised", "addCookie"):
                 req.addCookie(c["k"], c["v"], **kw)
             plan.expected.setdefault(b"set-cookie", []).append(http1.norm_value(expected_cookie(c)))
+            accepted_cookies += 1
             for x in c.values():
                 if isinstance(x, (bytes, str)):
                     note_hostile(_b(x))
+        if plan.direct_cookie is not None:
+            if plan.direct_cookie[0] == "after":
+                direct_cookie()
+            if accepted_cookies:
+                # both APIs used for one response: all of it is "set"; the order between the two groups is not judged
+                plan.cookie_apis_mixed = True
+                sim.probe("set_cookie_header_api_and_addCookie_in_one_response")
         total = sum(len(w) for w in plan.writes)
         if plan.cl_void is not None:
             # Content-Length is mentioned but, in the end, not declared: nothing of it may be sent and the framing is that of a
@@ -560,6 +697,21 @@ def run(sim):
                     plan.unknown.add(b"content-length")
                 except Exception:
                     sim.fault("content_length_redeclaration_refused")      # the declared length stays in force
+        if plan.early_cond is not None:
+            # the conditional-request helpers, before anything is written: each sets a field of the response (ETag / Last-Modified) and, if
+            # it returns http.CACHED, has changed the status itself: 304, or 412 from setETag on a method other than GET/HEAD (documented)
+            kind, arg = plan.early_cond
+            with sim.guard("helper-raised", kind):
+                ret = req.setETag(arg) if kind == "etag" else req.setLastModified(H.EPOCH + arg)
+            sim.event("helper", idx, kind, repr(arg), "cached" if ret else "-")
+            if kind == "etag":
+                plan.expected[b"etag"] = [http1.norm_value(arg)]
+            elif not plan.expected.get(b"last-modified"):
+                plan.expected[b"last-modified"] = [formatdate(H.EPOCH + arg, usegmt=True).encode("ascii")]
+            if ret:
+                sim.fault("status_set_by_conditional_request_helper")
+                plan.head_code = 304 if kind == "lastmod" or req.method in (b"GET", b"HEAD") else 412
+                plan.reason_refused = True      # the reason phrase given with the first status is not the one of this status: no verdict
         rest = list(plan.writes)
         prod = None
         if plan.mode == "producer":
@@ -618,7 +770,7 @@ def run(sim):
 
     def detail():
         return "requests=%r delivered=%d server-closed=%s\n plans=%r\n wire=%r" % (
-            reqs, nd, closed, [(p.code, p.reason, p.header_ops, p.cookies, p.writes, p.explicit_cl, p.mode) for p in plans], wire)
+            reqs, nd, closed, [(p.code, p.reason, p.header_ops, p.cookies, p.writes, p.explicit_cl, p.mode, p.direct_cookie, p.cond, p.early_cond, p.late_ops) for p in plans], wire)
 
     sim.check("responses-missing", not stuck and must_answer <= nd <= nreq and all(getattr(p, "finished", False) for p in plans[:nd]), "stuck", detail)
 
@@ -634,8 +786,9 @@ def run(sim):
         """-> (failure or None, parsed response or None).  failure = (clause, witness, detail)."""
         method, version, _conn = reqs[i]
         last = i == nd - 1          # the last response on this connection
-        nobody = method == b"HEAD" or plan.code in http1.NO_BODY_STATUS
-        cls = "head" if method == b"HEAD" else "no-body-code" if plan.code in http1.NO_BODY_STATUS else \
+        code = plan.head_code       # the status in force when the head went out; what the application does to the status later changes nothing
+        nobody = method == b"HEAD" or code in http1.NO_BODY_STATUS
+        cls = "head" if method == b"HEAD" else "no-body-code" if code in http1.NO_BODY_STATUS else \
             "http10" if version == b"HTTP/1.0" else "explicit-cl" if plan.explicit_cl else "chunked"
         rs, st, used = http1.parse_responses(wire[pos:], [method], eof=True)
         if not (len(rs) == 1 and (st == "ok" or (isinstance(st, tuple) and st[0] == "extra"))):
@@ -646,8 +799,8 @@ def run(sim):
         if r.framing == "close" and not closed:
             # neither Content-Length nor chunked (nor a status/method without body): only the end of the connection can delimit it
             return ("framing", "close-delimited-connection-left-open:" + cls, "response %d: nothing delimits the body and the server did not close" % i), r
-        if r.code != plan.code:
-            return ("status", "code", "response %d: %r != %r" % (i, r.code, plan.code)), r
+        if r.code != code:
+            return ("status", "code", "response %d: %r != %r" % (i, r.code, code)), r
         if plan.reason is not None and not plan.reason_refused and http1.norm_value(r.reason) != http1.norm_value(plan.reason):
             return ("reason", "given", "response %d: reason %r, set %r" % (i, r.reason, plan.reason)), r
         got = {}
@@ -665,10 +818,14 @@ def run(sim):
         for n in plan.unknown:
             got.pop(n, None)
             want.pop(n, None)
+        if plan.cookie_apis_mixed:
+            for d in (got, want):
+                if b"set-cookie" in d:
+                    d[b"set-cookie"] = sorted(d[b"set-cookie"])
         if got != want:
             names = sorted(set(got) | set(want))
             bad = [n for n in names if got.get(n) != want.get(n)][0]
-            w = "cookie" if bad == b"set-cookie" else "extra" if bad not in want else "missing" if bad not in got else "value"
+            w = "cookie-apis-mixed" if bad == b"set-cookie" and plan.cookie_apis_mixed else "cookie" if bad == b"set-cookie" else "extra" if bad not in want else "missing" if bad not in got else "value"
             return ("headers", w, "response %d header %r: wire %r, set %r" % (i, bad, got.get(bad), want.get(bad))), r
         body = b"" if nobody else b"".join(plan.writes)
         if r.body != body:
@@ -691,7 +848,7 @@ def run(sim):
         has_break = plan.reason is not None and (b"\r" in plan.reason or b"\n" in plan.reason) and not plan.reason_refused
         if has_break:
             sim.probe("reason_with_line_break")
-            if not taint and wire.startswith(reqs[i][1] + b" %d " % plan.code + plan.reason + b"\r\n", pos):
+            if not taint and wire.startswith(reqs[i][1] + b" %d " % plan.head_code + plan.reason + b"\r\n", pos):
                 taint.append("response %d: setResponseCode(%d, %r) -> wire %r" % (i, plan.code, plan.reason, wire[pos:pos + 200]))
         failure, r = check_response(i, plan, pos)
         if failure is not None:
@@ -726,12 +883,12 @@ def run(sim):
                 fail("h11-disagrees", "body", hdetail())
     elif not clean:
         sim.probe("h11_skipped_unclean_value")
-    sim.state((nreq, nd, tuple(p.code in http1.NO_BODY_STATUS for p in plans[:nd]), hwm, closed, sync_loss))
+    sim.state((nreq, nd, tuple(p.head_code in http1.NO_BODY_STATUS for p in plans[:nd]), hwm, closed, sync_loss))
     sim.nontrivial = bool(parsed) and hostile[0] > 0
 
 
 MUTANTS = [
-    "(run with a scratch tally tool, 1500 runs each, because the unchanged tree already has the analysed reason-line-break finding; 'caught' = other signatures appear)",
+    "(run with a scratch tally tool, 1500 runs each, because the tree as first examined already had the analysed reason-line-break finding, since REPAIRED in /repo 8367642; 'caught' = other signatures appear)",
     "CAUGHT http.py Request.addCookie._sanitize: drop `.replace(b';', b' ')` (cookie attribute injection) -> headers:cookie",
     'CAUGHT http_headers.py _sanitizeLinearWhitespace: return the component unchanged (CR/LF pass through header values) -> unparseable:*, headers:value',
     'CAUGHT http.py Request.write: drop the HEAD branch (`self.write = lambda data: None`) (body emitted for HEAD) -> extra-bytes:after-last-response, unparseable:*',
@@ -753,5 +910,11 @@ MUTANTS = [
     'CAUGHT (round 5) http.py HTTPChannel.writeHeaders two-tuple branch: `Headers({name: [value] for ...})` (repeated names collapse) -> headers:value, headers:cookie',
     'CAUGHT (round 5) http.py HTTPChannel.writeHeaders two-tuple branch: `addRawHeader(name, value)` -> `setRawHeaders(name, [value])` -> headers:value, headers:cookie',
     'CAUGHT (round 5) http.py HTTPChannel.writeHeaders two-tuple branch: pairs stored without name check / sanitising -> invalid-name-accepted:pairs, unparseable:*',
-    'FIX-CHECK http.py HTTPChannel.writeHeaders: `reason` -> `_sanitizeLinearWhitespace(reason)`: reason-line-break disappears, 0 violations in 6000 runs (1782 responses with CR/LF in the reason)',
+    'CAUGHT (round 6) http.py Request.write: the HEAD / NO_BODY_CODES test taken on every write from the current self.code instead of once when the head goes out -> unparseable:no-body-code, body:chunked, body:explicit-cl',
+    'CAUGHT (round 6) http.py Request.write: `if self.etag is not None:` -> `if False:` (setETag no longer sets the field) -> headers:missing, headers:value; likewise `if self.lastModified is not None:` -> headers:missing',
+    'CAUGHT (round 6) http.py Request.setETag: PRECONDITION_FAILED -> NOT_MODIFIED (a matching POST gets 304 and loses its body) -> status:code',
+    'CAUGHT (round 6) http.py Request.write: the no-op installed after a 204/304 head re-reads self.code (`lambda data: self.code in NO_BODY_CODES or self.channel.write(data)`) -> unparseable:no-body-code, extra-bytes:after-last-response',
+    'FIX-CHECK (round 6) http.py Request.write: cookies appended with addRawHeader instead of setRawHeaders(b"Set-Cookie", self.cookies): headers:cookie-apis-mixed disappears, 0 violations in 28000 runs with MIX_COOKIE_APIS_P = 0.25; this is the repair now in /repo 6461a49',
+    'GENUINE DEFECT (round 6) of the tree as first examined, REPAIRED in /repo 6461a49: http.py Request.write: `setRawHeaders(b"Set-Cookie", self.cookies)` dropped a Set-Cookie field set through setHeader/addRawHeader as soon as addCookie was used -> headers:cookie-apis-mixed (precondition let into the MIX_COOKIE_APIS_P = 0.25 share of the responses that use both APIs; 0 switches it off, only for dev-time comparison)',
+    'FIX-CHECK http.py HTTPChannel.writeHeaders: `reason` -> `_sanitizeLinearWhitespace(reason)`: reason-line-break disappears, 0 violations in 6000 runs (1782 responses with CR/LF in the reason); this is the repair now in /repo 8367642',
 ]
